@@ -425,7 +425,7 @@ KWDIR_FORMS = ["abs", "abs", "rel", "dot", "slash", "abs_slash", "bracket"]
 def lib_sched_spec(rng):
     """Policy for threads the code under test starts itself (tier 2)."""
     kind = rng.choice(["rw", "rw", "rtc", "pct"])
-    spec = {"policy": kind, "seed": rng.randrange(1 << 30), "scope": rng.choice(["nokw", "nokw", "engine", "all"]),
+    spec = {"policy": kind, "seed": rng.randrange(1 << 30), "scope": rng.choice(["nokw", "nokw", "engine"]),
             "timeout_fire_p": rng.choice([0.0, 0.0, 0.02, 0.2])}
     if kind == "rw":
         spec["quantum"] = rng.choice([3, 20, 200, 5000])
